@@ -1,0 +1,224 @@
+//go:build verif
+
+package statesync
+
+// Contracts for the deductive checks in /verif (read by /verif/govc; comment-only, no code).
+
+//@ import types github.com/tendermint/tendermint/types
+//@ import sm github.com/tendermint/tendermint/state
+//@ import p2p github.com/tendermint/tendermint/p2p
+//@ import proxy github.com/tendermint/tendermint/proxy
+//@ import abci github.com/tendermint/tendermint/abci/types
+//@ import log github.com/tendermint/tendermint/libs/log
+//@ import light github.com/tendermint/tendermint/light
+
+//@ extern log.Logger.Debug
+//@   assigns nothing
+//@ extern log.Logger.Info
+//@   assigns nothing
+//@ extern log.Logger.Error
+//@   assigns nothing
+
+// ---------------------------------------------------------------------------------------------------------------
+// What the state provider vouches for (defined by the StateProvider contracts; the light-client implementation is
+// proved below to return only light-verified values).
+//@ spec func provAppHash(h []byte, height uint64) bool
+//@ spec func provCommit(c *types.Commit, height uint64) bool
+//@ spec func provState(vals *types.ValidatorSet, appHash []byte, lastHeight int64, height uint64) bool
+//@ extern StateProvider.AppHash
+//@   assigns nothing
+//@   grants v: result1 == nil ==> provAppHash(result0, arg1)
+//@ extern StateProvider.Commit
+//@   assigns nothing
+//@   grants v: result1 == nil ==> provCommit(result0, arg1)
+//@ extern StateProvider.State
+//@   assigns nothing
+//@   grants v: result1 == nil ==> provState(result0.Validators, result0.AppHash, result0.LastBlockHeight, arg1)
+
+// What the application reported about itself after the restore.
+//@ spec func appInfo(appHash []byte, height uint64, version uint64) bool
+//@ extern proxy.AppConnQuery.InfoSync
+//@   assigns nothing
+//@   grants v: result1 == nil ==> appInfo(result0.LastBlockAppHash, uint64(result0.LastBlockHeight), result0.AppVersion)
+// What was offered to the application.
+//@ spec func offered(height uint64, format uint32, chunks uint32, hash []byte, appHash []byte) bool
+//@ extern proxy.AppConnSnapshot.OfferSnapshotSync
+//@   assigns nothing
+//@   grants v: (result1 == nil && result0.Result == 1) ==> offered(arg0.Snapshot.Height, arg0.Snapshot.Format, arg0.Snapshot.Chunks, arg0.Snapshot.Hash, arg0.AppHash)
+//@ extern proxy.AppConnSnapshot.ApplySnapshotChunkSync
+//@   assigns nothing
+
+// The restored application must report exactly the trusted hash, the snapshot height and the expected version.
+//@ func syncer.verifyApp
+//@   assigns nothing
+//@   ensures ok: result == nil ==> appInfo(snapshot.trustedAppHash, snapshot.Height, appVersion)
+
+// The snapshot is offered together with the app hash the state provider vouched for; nil only on ACCEPT.
+//@ func syncer.offerSnapshot
+//@   assigns nothing
+//@   ensures ok: result == nil ==> offered(snapshot.Height, snapshot.Format, snapshot.Chunks, snapshot.Hash, snapshot.trustedAppHash)
+
+// A sync succeeds only with state, commit and app hash all from the state provider for the snapshot's height, offered
+// with that hash, and confirmed by the restored application.
+// ---------------------------------------------------------------------------------------------------------------
+// Chunk queue: bytes and sender are recorded at arrival, chunks are handed out in index order.
+
+//@ import os os
+//@ extern os.WriteFile
+//@   assigns nothing
+//@ extern os.ReadFile
+//@   assigns nothing
+//@ extern os.Remove
+//@   assigns nothing
+// ASSUMED: a path joined from a directory and a decimal number is not the empty string.
+//@ import filepath path/filepath
+//@ extern filepath.Join
+//@   assigns nothing
+//@   ensures nonempty: len(result) > 0
+
+// A chunk is recorded only if it belongs to the snapshot being restored and is not already present; what is written
+// to its file is exactly the received bytes, and the sender recorded is the peer it arrived from.
+//@ func chunkQueue.Add
+//@   atcall os.WriteFile bytes: arg1 == chunk.Chunk
+//@   ensures recorded: result0 ==> (result1 == nil && chunk.Index < q.snapshot.Chunks && chunk.Height == q.snapshot.Height && chunk.Format == q.snapshot.Format &&
+//@     | q.chunkFiles[chunk.Index] != "" && q.chunkSenders[chunk.Index] == chunk.Sender && old(q.chunkFiles[chunk.Index]) == "")
+//@   ensures others: forall(j, 0, 4294967296, j != chunk.Index ==> (q.chunkFiles[j] == old(q.chunkFiles[j]) && q.chunkSenders[j] == old(q.chunkSenders[j])))
+//@   ensures ignored: !result0 ==> (q.chunkFiles[chunk.Index] == old(q.chunkFiles[chunk.Index]) && q.chunkSenders[chunk.Index] == old(q.chunkSenders[chunk.Index]))
+//@   loop 1 invariant t: true
+
+// The next chunk to hand out is the lowest index not yet returned.
+//@ func chunkQueue.nextUp
+//@   assigns nothing
+//@   ensures lowest: result1 == nil ==> (result0 < q.snapshot.Chunks && !q.chunkReturned[result0] && forall(j, 0, result0, q.chunkReturned[j]))
+//@   loop 1 invariant done: i <= q.snapshot.Chunks && forall(j, 0, i, q.chunkReturned[j])
+
+// A chunk loaded from the queue carries the index asked for and the sender recorded at arrival.
+//@ func chunkQueue.load
+//@   assigns nothing
+//@   ensures tagged: result0 != nil ==> (result0.Index == index && result0.Sender == q.chunkSenders[index] && result0.Height == q.snapshot.Height && result0.Format == q.snapshot.Format)
+
+// Next hands out the chunk whose index nextUp chose: the lowest not yet returned.
+//@ func chunkQueue.WaitFor
+//@   trusted
+//@   assigns q.waiters, q.Mutex
+//@ func chunkQueue.Next
+//@   ensures chosen: (result1 == nil && result0 != nil) ==> (result0.Index == index && result0.Sender == q.chunkSenders[index])
+//@   atcall chunkQueue.load lowest: arg1 == index
+
+//@ func chunkQueue.Allocate
+//@   ensures fresh: result1 == nil ==> (result0 < q.snapshot.Chunks && !old(q.chunkAllocated[result0]) && q.chunkAllocated[result0])
+//@   loop 1 invariant t: i <= q.snapshot.Chunks
+
+// Discarding makes the chunk absent, unallocated and unreturned again (so that it is fetched and applied again).
+//@ func chunkQueue.discard
+//@   ensures gone: (result == nil && q.snapshot != nil) ==> (q.chunkFiles[index] == "" && (old(q.chunkFiles[index]) != "" ==> (!q.chunkAllocated[index] && !q.chunkReturned[index])))
+//@ func chunkQueue.Retry
+//@   ensures again: !q.chunkReturned[index]
+
+// The application sees exactly the chunk the queue handed out: its index, bytes and recorded sender.
+//@ func syncer.applyChunks
+//@   loop 1 invariant t: true
+//@   loop 2 invariant t: true
+//@   loop 3 invariant t: true
+//@   atcall AppConnSnapshot.ApplySnapshotChunkSync exact: arg0.Index == chunk.Index && arg0.Chunk == chunk.Chunk && arg0.Sender == string(chunk.Sender)
+//@ func syncer.Sync
+//@   loop 1 invariant t: true
+//@   ensures trusted: result2 == nil ==> (provAppHash(snapshot.trustedAppHash, snapshot.Height) && provCommit(result1, snapshot.Height) &&
+//@     | provState(result0.Validators, result0.AppHash, result0.LastBlockHeight, snapshot.Height))
+//@   ensures app: result2 == nil ==> (offered(snapshot.Height, snapshot.Format, snapshot.Chunks, snapshot.Hash, snapshot.trustedAppHash) &&
+//@     | appInfo(snapshot.trustedAppHash, snapshot.Height, result0.Version.Consensus.App))
+
+// Whatever SyncAny returns without error is the result of a successful Sync of the snapshot it was working on; a
+// snapshot the application or the light client turned down is rejected in the pool before the next one is tried.
+//@ func chunkQueue.Close
+//@   trusted
+//@   assigns except(types, sm, statesync.snapshot, statesync.snapshotPool)
+//@ func chunkQueue.RetryAll
+//@   trusted
+//@   assigns except(types, sm, statesync.snapshot, statesync.snapshotPool)
+//@ func newChunkQueue
+//@   trusted
+//@   assigns nothing
+//@ func snapshotPool.Best
+//@   trusted
+//@   assigns nothing
+//@ func snapshotPool.GetPeers
+//@   trusted
+//@   assigns nothing
+//@ func syncer.SyncAny
+//@   loop 1 invariant t: true
+//@   loop 2 invariant t: true
+//@   ensures synced: result2 == nil ==> (snapshot != nil && provAppHash(snapshot.trustedAppHash, snapshot.Height) && provCommit(result1, snapshot.Height) &&
+//@     | provState(result0.Validators, result0.AppHash, result0.LastBlockHeight, snapshot.Height) && appInfo(snapshot.trustedAppHash, snapshot.Height, result0.Version.Consensus.App))
+
+// Chunks from a rejected sender are ignored.
+//@ func snapshotPool.IsPeerRejected
+//@   assigns p.Mutex
+//@   ensures def: result == (has(p.peerBlacklist, peerID) && p.peerBlacklist[peerID])
+//@ func syncer.AddChunk
+//@   ensures notrejected: (chunk != nil && has(s.snapshots.peerBlacklist, chunk.Sender) && s.snapshots.peerBlacklist[chunk.Sender]) ==> !result0
+
+// ---------------------------------------------------------------------------------------------------------------
+// Snapshot pool: what was rejected is never offered again.
+
+// ASSUMED: the key is a deterministic function of the snapshot's fields.
+//@ func snapshot.Key
+//@   trusted
+//@   purefn
+//@   assigns nothing
+//@ extern p2p.Peer.ID
+//@   pure
+//@   assigns nothing
+
+// A snapshot enters the pool only if neither its format, nor its key, nor the peer offering it has been rejected, and
+// adding never changes a blacklist.
+//@ func snapshotPool.Add
+//@   ensures clean: result0 ==> (!old(p.formatBlacklist[snapshot.Format]) && !old(p.snapshotBlacklist[snapshot.Key(snapshot)]) && !old(p.peerBlacklist[imethod(peer, ID)]))
+//@   ensures refused: (old(p.formatBlacklist[snapshot.Format]) || old(p.snapshotBlacklist[snapshot.Key(snapshot)]) || old(p.peerBlacklist[imethod(peer, ID)])) ==> (!result0 && p.snapshots[snapshot.Key(snapshot)] == old(p.snapshots[snapshot.Key(snapshot)]))
+
+//@ func snapshotPool.removeSnapshot
+//@   ensures gone: p.snapshots[key] == nil
+//@   loop 1 invariant t: true
+
+// Rejecting lists the item and removes it.
+// (That removeSnapshot leaves the blacklists alone needs the pool's maps to be distinct objects - not under contract.)
+//@ func snapshotPool.Reject
+//@   atcall snapshotPool.removeSnapshot listed: p.snapshotBlacklist[snapshot.Key(snapshot)] && arg1 == snapshot.Key(snapshot)
+//@   ensures gone: p.snapshots[snapshot.Key(snapshot)] == nil
+//@ func snapshotPool.RejectFormat
+//@   ensures listed: p.formatBlacklist[format]
+//@   loop 1 invariant t: true
+//@ func snapshotPool.RejectPeer
+//@   ensures listed: peerID != "" ==> p.peerBlacklist[peerID]
+
+// ---------------------------------------------------------------------------------------------------------------
+// The light-client state provider hands out only values of headers its light client has verified (C09: reached).
+// reach(h) is the predicate of light/zz_verif_contracts.go.
+
+//@ func lightClientStateProvider.AppHash
+//@   ensures verified: result1 == nil ==> (reach(types.Header.Hash(header.SignedHeader.Header)) && header.SignedHeader.Header.Height == int64(height + 1) && result0 == header.SignedHeader.Header.AppHash)
+
+//@ func lightClientStateProvider.Commit
+//@   ensures verified: result1 == nil ==> (reach(types.Header.Hash(header.SignedHeader.Header)) && header.SignedHeader.Header.Height == int64(height) && result0 == header.SignedHeader.Commit)
+
+// The state is assembled from the light blocks at height (last), height+1 (current) and height+2 (next).
+//@ import lightrpc github.com/tendermint/tendermint/light/rpc
+//@ func lightClientStateProvider.State
+//@   ensures verified: result1 == nil ==> (reach(types.Header.Hash(lastLightBlock.SignedHeader.Header)) && reach(types.Header.Hash(currentLightBlock.SignedHeader.Header)) && reach(types.Header.Hash(nextLightBlock.SignedHeader.Header)) &&
+//@     | lastLightBlock.SignedHeader.Header.Height == int64(height) && currentLightBlock.SignedHeader.Header.Height == int64(height + 1) && nextLightBlock.SignedHeader.Header.Height == int64(height + 2))
+//@   ensures fields: result1 == nil ==> (result0.LastBlockHeight == lastLightBlock.SignedHeader.Header.Height && result0.LastBlockID == lastLightBlock.SignedHeader.Commit.BlockID &&
+//@     | result0.AppHash == currentLightBlock.SignedHeader.Header.AppHash && result0.LastResultsHash == currentLightBlock.SignedHeader.Header.LastResultsHash &&
+//@     | result0.LastValidators == lastLightBlock.ValidatorSet && result0.Validators == currentLightBlock.ValidatorSet && result0.NextValidators == nextLightBlock.ValidatorSet &&
+//@     | result0.Version.Consensus == currentLightBlock.SignedHeader.Header.Version && result0.LastBlockTime == lastLightBlock.SignedHeader.Header.Time)
+// ... and the consensus parameters are the ones the verifying RPC client relayed for the current height (C20: their hash
+// is the ConsensusHash of the light-verified header at that height).
+//@   ensures params: result1 == nil ==> vcons(types.HashConsensusParams(result0.ConsensusParams), currentLightBlock.SignedHeader.Header.Height)
+//@ func rpcClient
+//@   trusted
+//@   assigns nothing
+//@ extern lightrpc.NewClient
+//@   assigns nothing
+//@ extern light.Client.Primary
+//@   assigns nothing
+//@ extern light.Client.ChainID
+//@   assigns nothing
